@@ -218,6 +218,10 @@ def check(run, project):
     b4(run, project)
     b5(run, L)
     b6(run, project)
+    # B7 (= C04-V4 / C16-O4): what is re-encoded is the member a handle-range value was decoded to - its value must be the
+    # number that was decoded (`NamedRange.by_number(n)` = the member with value n), else the bytes change on the way back
+    from . import namedrange
+    namedrange.check(run, "B7", project.module("tpmstream.spec.common.values"))
     run.floor("B5", 100, "primitive types")
 
 
